@@ -38,6 +38,10 @@ THEOREMS = [P + n for n in [
     "merge_derived_table", "merge_derived_table_inner_join", "merge_guard_sound", "merge_guards_present",
     "merge_needs_no_distinct", "merge_needs_no_limit", "merge_inner_where_under_left_join_unsound",
     "merge_constant_projection_under_outer_join_unsound",
+    "unnest_in_subquery", "unnest_exists_subquery", "in_subquery_as_join_needs_distinct", "not_in_with_null_not_antijoin",
+    "pushdown_dnf_common_predicate", "dnf_implies_disjunction_of_common", "pushdown_dnf_single_branch_unsound",
+    "pushdown_projections_preserves", "pushdown_projections_needs_no_distinct", "projection_guards_present",
+    "append_cte_keeps_scoping", "eliminate_subqueries_forward_reference_witness",
     "decorrelate_scalar_aggregate", "decorrelate_constant_zero_fallback_unsound", "decorrelate_null_of_existing_group_unsound",
     "eliminate_left_join_on_unique_key", "unique_key_gives_at_most_one_match", "eliminate_left_join_needs_unique",
     "eliminate_inner_join_unsound", "eliminate_cross_join_single_row", "eliminate_cross_join_at_most_one_row_unsound",
@@ -265,6 +269,25 @@ def translate(chk: Check) -> str:
         changed("_has_single_output_row: unrecognised body")
     chk.cov["has_single_output_row_guards"] = single_row
 
+    # pushdown_projections: when is NO column pruned
+    PROJ = {"scope_expression.args.get('distinct')": ".distinct",
+            "isinstance(scope_expression, (exp.Intersect, exp.Except))": ".intersectExcept",
+            "_is_self_referencing_cte(scope)": ".selfRefCte"}
+    proj_atoms = []
+    ppj = _fn(src("pushdown_projections.py"), "pushdown_projections")
+    found_pj = False
+    if ppj is not None:
+        for n in ast.walk(ppj):
+            if isinstance(n, ast.If) and len(n.body) == 1 and ast.unparse(n.body[0]) == "parent_selections = {SELECT_ALL}":
+                found_pj = True
+                for c in _conj(n.test, ast.Or):
+                    if c in PROJ:
+                        proj_atoms.append(PROJ[c])
+                    else:
+                        changed(f"unknown disjunct in pushdown_projections' keep-all guard: {c}")
+    if not found_pj:
+        changed("pushdown_projections: keep-all guard not found")
+
     # optimize_joins._is_reorderable
     ir = _fn(src("optimize_joins.py"), "_is_reorderable")
     ret = ast.unparse(ir.body[-1]) if ir is not None else ""
@@ -304,6 +327,7 @@ def translate(chk: Check) -> str:
         "def elimBranchB : List ElimAtom := " + lst(brb),
         "def singleRowGuards : List SingleRowAtom := " + lst(single_row),
         f"def reorderRequiresNoSide : Bool := {b(reorder)}",
+        "def projKeepAll : List ProjAtom := " + lst(proj_atoms),
         "end SqlglotModel.Generated.C03",
     ]
     return "\n".join(L) + "\n"
@@ -791,6 +815,56 @@ class QGen:
             return f"{a}.a = 2 AND {a}.a < {r.choice([1, 3])}" if depth > 0 else f"{a}.a = 2"
         return f"{a}.{r.choice('ab')} {r.choice(CMP)} {r.choice([0, 1, 2, 3])}"
 
+    def set_subquery(self, outer, correlated):
+        """the body of an IN / ANY / EXISTS subquery: own GROUP BY (1-3 keys, projection a strict subset of the keys,
+        HAVING), DISTINCT, LIMIT, set operations, aggregate projections — a lost de-duplication multiplies outer rows"""
+        r = self.rng
+        t = r.choice(["x", "y", "z"])
+        c = r.choice("ab")
+        o = "b" if c == "a" else "a"
+        conds = []
+        if correlated:
+            conds.append(f"{t}.{r.choice('ab')} = {outer}.{r.choice('ab')}")
+        if r.random() < 0.3:
+            conds.append(f"{t}.{r.choice('ab')} {r.choice(CMP)} {r.choice([0, 1, 2])}")
+        w = (" WHERE " + " AND ".join(conds)) if conds else ""
+        k = r.random()
+        if k < 0.2:
+            return f"SELECT {t}.{c} FROM {t}{w}"
+        if k < 0.45:
+            keys = r.choice([[c], [c, o], [o, c], [c, o, f"{c} + {o}"]])
+            keys = [f"{t}.{x}" if "+" not in x else f"{t}.{c} + {t}.{o}" for x in keys]
+            having = f" HAVING {r.choice(['COUNT(*) > 0', 'COUNT(*) > 1', f'MAX({t}.{o}) > 0', f'MIN({t}.{o}) IS NOT NULL'])}" if r.random() < 0.4 else ""
+            return f"SELECT {t}.{c} FROM {t}{w} GROUP BY {', '.join(keys)}{having}"
+        if k < 0.55:
+            return f"SELECT DISTINCT {t}.{c} FROM {t}{w}"
+        if k < 0.65:
+            return f"SELECT {r.choice(['MAX', 'MIN', 'COUNT'])}({t}.{c}) FROM {t}{w} GROUP BY {t}.{o}"
+        if k < 0.75 and not correlated:
+            t2 = r.choice(["x", "y", "z"])
+            return f"SELECT {t}.{c} FROM {t}{w} {r.choice(['UNION', 'UNION ALL', 'INTERSECT', 'EXCEPT'])} SELECT {t2}.{r.choice('ab')} FROM {t2}"
+        if k < 0.85:
+            return f"SELECT {t}.{c} FROM {t}{w} ORDER BY {t}.{c} NULLS LAST, {t}.{o} NULLS LAST LIMIT {r.choice([1, 2])}"
+        return f"SELECT {t}.{c} + {r.choice([0, 1])} FROM {t}{w}"
+
+    def in_predicate(self, outer):
+        r = self.rng
+        col = f"{outer}.{r.choice('ab')}"
+        body = self.set_subquery(outer, r.random() < 0.3)
+        k = r.random()
+        if k < 0.6:
+            return f"{col} IN ({body})"
+        if k < 0.75:
+            return f"{col} NOT IN ({body})"
+        if k < 0.9:
+            return f"{col} = ANY ({body})"
+        return f"({col} IN ({body}) OR {outer}.{r.choice('ab')} {r.choice(CMP)} {r.choice([0, 1, 2])})"
+
+    def exists_predicate(self, outer):
+        r = self.rng
+        body = self.set_subquery(outer, r.random() < 0.8)
+        return f"{r.choice(['', '', 'NOT '])}EXISTS ({body})"
+
     def agg_expr(self, t):
         r = self.rng
         cnt = r.choice(["COUNT(*)", f"COUNT({t}.a)", f"COUNT({t}.b)"])
@@ -885,13 +959,13 @@ class QGen:
         shape = r.random()
         where = f" WHERE {self.pred(aliases)}" if r.random() < 0.65 else ""
         sub = r.random()
-        if sub < 0.08:
-            where += (" AND " if where else " WHERE ") + f"p.a {r.choice(['', 'NOT '])}IN (SELECT z.a FROM z{r.choice(['', ' WHERE z.b > 0'])})"
-        elif sub < 0.16:
-            where += (" AND " if where else " WHERE ") + f"{r.choice(['', 'NOT '])}EXISTS (SELECT 1 FROM z WHERE z.a = p.a{r.choice(['', ' AND z.b > 1'])})"
+        if sub < 0.12:
+            where += (" AND " if where else " WHERE ") + self.in_predicate("p")
         elif sub < 0.2:
+            where += (" AND " if where else " WHERE ") + self.exists_predicate("p")
+        elif sub < 0.24:
             where += (" AND " if where else " WHERE ") + f"p.b > (SELECT {r.choice(['MIN', 'MAX', 'COUNT'])}(z.b) FROM z WHERE z.a = p.a)"
-        elif sub < 0.3:
+        elif sub < 0.34:
             # expression OVER aggregates, correlated by equality: the empty group / unmatched outer row matters
             where += (" AND " if where else " WHERE ") + f"p.{r.choice('ab')} {r.choice(CMP)} ({self.scalar_agg_subquery('p')})"
         self.extra_select = None
@@ -951,6 +1025,21 @@ WITNESSES = [
     ("SELECT x.a AS xa, y.a AS ya FROM x LEFT JOIN y ON x.a = y.a JOIN z ON y.a = z.a", {"x": [[1, 1]], "y": [], "z": [[1, 1]]}),
     ("SELECT x.a AS xa FROM x RIGHT JOIN (SELECT a, b FROM y) AS y ON x.a = y.a RIGHT JOIN (SELECT a, b FROM z) AS z ON y.a = z.a WHERE y.b > 1", {"x": [], "y": [], "z": [[1, 1]]}),
     ("SELECT p.a AS pa FROM (SELECT 1 AS a FROM z) AS p FULL JOIN x ON p.a = x.b", {"x": [[1, 2]], "y": [], "z": []}),
+    # pushdown_dnf: only a predicate common to ALL disjuncts may be pushed (known finding C11-or-in-where-over-join)
+    ("SELECT y.a AS ya FROM y CROSS JOIN z WHERE ((z.b * y.a) IS NULL OR y.a BETWEEN 0 AND 0)", {"x": [], "y": [[None, None]], "z": [[None, None]]}),
+    ("SELECT y.a AS ya FROM y CROSS JOIN z WHERE (y.a = 1 AND z.b = 1) OR (y.a = 2 AND z.b IS NULL)", {"x": [], "y": [[1, 1], [2, 2], [3, 3]], "z": [[1, 1], [None, None]]}),
+    ("SELECT DISTINCT p.a AS pa FROM (SELECT DISTINCT y.a AS a, y.b AS b FROM y) AS p", {"x": [], "y": [[1, 1], [1, 2]], "z": []}),
+    ("SELECT p.a AS pa FROM (SELECT y.a AS a, y.b AS b FROM y EXCEPT SELECT z.a, z.b FROM z) AS p", {"x": [], "y": [[1, 1], [1, 2]], "z": [[1, 2]]}),
+    # IN / ANY / EXISTS subqueries with their own GROUP BY / DISTINCT / set operation, duplicate join values
+    ("SELECT x.a AS xa FROM x WHERE x.a IN (SELECT y.a FROM y GROUP BY y.a, y.b)", {"x": [[1, 1], [2, 2]], "y": [[1, 1], [1, 2], [1, 2]], "z": []}),
+    ("SELECT x.a AS xa FROM x WHERE x.a IN (SELECT y.a FROM y GROUP BY y.b, y.a HAVING COUNT(*) > 0)", {"x": [[1, 1], [2, 2]], "y": [[1, 1], [1, 2], [1, 2]], "z": []}),
+    ("SELECT x.a AS xa FROM x WHERE x.a = ANY (SELECT y.a FROM y GROUP BY y.a, y.b, y.a + y.b)", {"x": [[1, 1]], "y": [[1, 1], [1, 2]], "z": []}),
+    ("SELECT x.a AS xa FROM x WHERE x.a IN (SELECT y.a FROM y)", {"x": [[1, 1], [None, 2]], "y": [[1, 1], [1, 2], [None, 3]], "z": []}),
+    ("SELECT x.a AS xa FROM x WHERE x.a IN (SELECT y.a FROM y UNION ALL SELECT z.a FROM z)", {"x": [[1, 1]], "y": [[1, 1]], "z": [[1, 5]]}),
+    ("SELECT x.a AS xa FROM x WHERE x.a IN (SELECT MAX(y.a) FROM y GROUP BY y.b)", {"x": [[1, 1]], "y": [[1, 1], [1, 2]], "z": []}),
+    ("SELECT x.a AS xa FROM x WHERE EXISTS (SELECT y.a FROM y WHERE y.a = x.a GROUP BY y.a, y.b)", {"x": [[1, 1], [2, 2]], "y": [[1, 1], [1, 2]], "z": []}),
+    ("SELECT x.a AS xa FROM x WHERE x.b IN (SELECT y.b FROM y WHERE y.a = x.a GROUP BY y.b, y.a)", {"x": [[1, 1], [2, 2]], "y": [[1, 1], [1, 1]], "z": []}),
+    ("SELECT x.a AS xa FROM x WHERE x.a IN (SELECT y.a FROM y) OR x.b > 5", {"x": [[1, 1], [2, 9]], "y": [[1, 1], [1, 2]], "z": []}),
     # decorrelation of scalar subqueries over an EMPTY group (outer rows without a match, NULL keys, empty tables)
     ("SELECT x.a AS xa FROM x WHERE x.a < (SELECT COUNT(*) + 1 FROM z WHERE z.b = x.b)", {"x": [[0, 1], [0, 5], [0, None]], "y": [], "z": [[1, 1]]}),
     ("SELECT x.a AS xa, (SELECT CASE WHEN COUNT(*) = 0 THEN 1 ELSE 0 END FROM z WHERE z.b = x.b) AS c FROM x", {"x": [[1, 1], [2, 5], [None, None]], "y": [], "z": [[1, 1]]}),
